@@ -16,7 +16,7 @@ package serverinterceptors
 //@   results r0, r1
 //@   ghost at entry: ctx0 = ctx
 //@   ghost at entry: armT = false
-//@   ghost at after Done#0: armT = true
+//@   ghost at arm ctx.Done(): armT = true
 //@   call WithTimeout#0: assert arg_parent == ctx0 && arg_timeout == ite(inDom(timeouts, info.FullMethod), timeouts[info.FullMethod], timeout)
 //@   ensures implies(armT, r0 == nil)
 
